@@ -23,7 +23,7 @@ EXTENDS Integers, Sequences, FiniteSets, SequencesExt, TLC
 Punct == {"(", ")", ",", "-"}
 IsId(t) == t \notin Punct
 
-MaxNum == 99                                   \* numerals 0..MaxNum (decimal, no leading zeros)
+MaxNum == 199                                  \* numerals 0..MaxNum (decimal, no leading zeros)
 NumTab == [n \in 0..MaxNum |-> ToString(n)]
 NumeralSet == {NumTab[n] : n \in 0..MaxNum}
 IsNumeral(s) == s \in NumeralSet
@@ -31,10 +31,18 @@ NumOf(s) == CHOOSE n \in 0..MaxNum : NumTab[n] = s
 Str(n) == NumTab[n]
 
 \* a token sequence stands for one string: two identifier tokens next to each other would
-\* read as one longer identifier, and no token is the empty string
+\* read as one longer identifier, and no token is the empty string.  Identifiers separated only by
+\* ")" are joined by the parser (it deletes every ")"): at most two of them, numerals among them
+\* single digits, so that a joined numeral is again a numeral of this model (10..99)
 Dom_Tokens(toks) ==
   /\ \A k \in DOMAIN toks : toks[k] # ""
   /\ \A k \in 1..(Len(toks) - 1) : ~(IsId(toks[k]) /\ IsId(toks[k + 1]))
+  /\ LET nc == SelectSeq(toks, LAMBDA t : t # ")") IN
+     \A k \in 1..(Len(nc) - 1) :
+        (IsId(nc[k]) /\ IsId(nc[k + 1])) =>
+           /\ (k + 2 <= Len(nc) => ~IsId(nc[k + 2]))
+           /\ (IsNumeral(nc[k]) => NumOf(nc[k]) \in 1..9)
+           /\ (IsNumeral(nc[k + 1]) => NumOf(nc[k + 1]) \in 0..9)
 
 \* str.split(sep): k separators give k + 1 parts
 SplitOn(s, sep) ==
@@ -72,7 +80,7 @@ RenderExpr(e)   == IF e.paren
                    ELSE RenderGroup(e.groups[1])
 
 \* declarative meaning ----------------------------------------------------------------
-RangeIds(a, b)  == [k \in 1..(b - a + 1) |-> Str(a + k - 1)]            \* empty when b < a
+RangeIds(a, b)  == IF b < a THEN <<>> ELSE [k \in 1..(b - a + 1) |-> Str(a + k - 1)]   \* range(a, b + 1)
 ItemIds(it)     == IF it.k = "id" THEN <<it.id>> ELSE RangeIds(it.lo, it.hi)
 GroupIds(g)     == FlattenSeq([i \in DOMAIN g |-> ItemIds(g[i])])
 \* "(1,2)(3,4)": 3 and 4 are applied first, then 1 and 2 -> the pools in order of application
@@ -94,16 +102,17 @@ ProductFold(pools) ==
              FlattenSeq([i \in DOMAIN acc |-> [j \in DOMAIN pool |-> Append(acc[i], pool[j])]]),
            << <<>> >>, pools)
 
-IntLit(part) == Len(part) = 1 /\ IsNumeral(part[1])                 \* int(part) succeeds
+\* the characters of a piece: its identifier tokens one after the other ("" for none)
+Glue(part) == FoldLeft(LAMBDA acc, t : acc \o t, "", part)
+IntLit(part) == IsNumeral(Glue(part))                               \* int(part) succeeds
 \* one comma-separated piece of a group (tokens without "(" ")" ",")
 PieceIds(piece) ==
   IF \E k \in DOMAIN piece : piece[k] = "-"
   THEN LET parts == SplitOn(piece, "-") IN                          \* first, last = expr.split("-")
        IF Len(parts) = 2 /\ IntLit(parts[1]) /\ IntLit(parts[2])
-       THEN [ok |-> TRUE, ids |-> RangeIds(NumOf(parts[1][1]), NumOf(parts[2][1]))]
+       THEN [ok |-> TRUE, ids |-> RangeIds(NumOf(Glue(parts[1])), NumOf(Glue(parts[2])))]
        ELSE [ok |-> FALSE, ids |-> <<>>]
-  ELSE IF piece = <<>> THEN [ok |-> TRUE, ids |-> <<"">>]           \* the empty string is taken as an id
-  ELSE [ok |-> TRUE, ids |-> <<piece[1]>>]                          \* Dom_Tokens: one identifier token
+  ELSE [ok |-> TRUE, ids |-> <<Glue(piece)>>]                       \* also the empty string is taken as an id
 SegmentIds(seg) ==
   LET ps == SplitOn(seg, ",")
       rs == [k \in DOMAIN ps |-> PieceIds(ps[k])]
@@ -306,9 +315,11 @@ CallOf(c) == [aid |-> c[2], model |-> c[3], keepAsym |-> c[4], useAuthor |-> c[5
 Expected(b, c) == IF c[1] = "get" THEN GetAssembly(b, CallOf(c)) ELSE ListAssemblies(b)
 StrictQuery(b, c) == c[1] = "list" \/ StrictCall(b, CallOf(c))
 Enabled(b, c) ==
-  CASE c[1] \in {"set_expr", "set_asyms", "set_aid"} -> c[2] \in DOMAIN b.gens
-    [] c[1] = "del_row"  -> c[2] \in DOMAIN b.gens /\ Len(b.gens) >= 2
-    [] c[1] = "set_oper" -> c[2] \in DOMAIN b.opers
+  \* the rows of a category can be edited while the category is in the file
+  CASE c[1] \in {"set_expr", "set_asyms", "set_aid"} -> CatGen \notin b.missing /\ c[2] \in DOMAIN b.gens
+    [] c[1] = "add_row"  -> CatGen \notin b.missing
+    [] c[1] = "del_row"  -> CatGen \notin b.missing /\ c[2] \in DOMAIN b.gens /\ Len(b.gens) >= 2
+    [] c[1] = "set_oper" -> CatOper \notin b.missing /\ c[2] \in DOMAIN b.opers
     [] c[1] = "drop"     -> c[2] \in Cats \ b.missing
     [] c[1] = "restore"  -> c[2] \in b.missing
     [] OTHER -> TRUE
